@@ -23,7 +23,8 @@ TRUSTED = [py2lean.trusted_note("pnorm")]
 PROP_FILES = ["PersimVerif/Props/C10.lean", py2lean.prop_file("pnorm")]
 # the bottleneck clause about what the MODELS return (C10 o C09 o C03 against C01)
 PROP_FILES += ["PersimVerif/Props/C10Model.lean"]
-RULE = ("landscapes built by the real classes from generated diagrams (1-7 bars; lattice/half/eighth/decimal/uniform "
+RULE = ("landscapes built by the real classes from generated diagrams (1-7 bars, one family in twelve 8-30 bars, thorough 8-50; "
+        "lattice/half/eighth/decimal/uniform "
         "coordinates, whole diagram rescaled by 2^k, k in {-40,-30,-20,-3,0,3,20,30}; duplicates 15%; diagonal bars in a flagged "
         "sub-stream) as single / negated / difference / P-P / random linear combinations of 2-3 landscapes (exact and "
         "grid, 5-40 grid nodes), plus synthetic piecewise-linear functions with forced zeros and equal neighbours fed "
@@ -38,12 +39,23 @@ ASSUMPTIONS = ["critical pairs / grid values are finite floats (no NaN/inf insid
                "segments add the first-order rounding bound of the code's slope*x+b recomputation (8 eps (|slope x|+|y|) "
                "on each end value); cases where that bound exceeds 1e-9 relative are counted as ill_conditioned",
                "real p: np.float64 ** float is C pow, as Float.pow in the model",
-               "stability stream: evaluated on every case; a failure on diagrams on which the C03 repeated-bar shortcut fired is "
-               "attributed to the known finding (counted, KNOWN-FINDING line), any other failure is a violation",
-               "large exponents: p_norm is tested for integer and real p up to 100 at scales 2^-21..2^21; failures where "
-               "|p*log2(max|value|) + log2(width)| > 900 (M**p leaves the double range) are the known over/underflow finding"]
+               "stability stream: evaluated on every case; a failure is attributed to the known C03 finding (counted, KNOWN-FINDING "
+               "line) BY CONTENT only: each of P1, P2 is the tent-definition landscape or exactly the Lean model's output of the sweep "
+               "with the repeated-bar shortcut (at least one the latter), the code's sup norm of P1 - P2 equals the sup of the "
+               "difference of the functions P1 and P2 represent, and the definition's landscapes satisfy the clause for the code's "
+               "bottleneck value; the guarded trace is read for P1 and P2 only and merely counted; any other failure is a violation",
+               "large exponents: p_norm is tested for integer and real p up to 100 at scales 2^-21..2^21 against an independent "
+               "oracle (the critical pairs rescaled by powers of two to unit size, adaptive quadrature of |f|^p per segment, the norm "
+               "assembled in the log domain; 1e-6 relative); a failure is the known over/underflow finding only in its listed modes: "
+               "exactly inf (exponent p*log2(max|value|)+log2(width) > 900), exactly 0.0 (exponent < -900), or - gradual underflow, "
+               "which the unchanged tree shows between about -1055 and -1074 - a positive value whose deviation is within what "
+               "rounding the p-th power to multiples of 2^-1074 explains; NaN, negative, off by more, or a raise are violations",
+               "a norm that raises on a valid landscape with p >= 1 is a failing input; a private helper (_p_norm) that raises under "
+               "the harness's call convention is re-evaluated through the public p_norm first; a law case whose landscapes / "
+               "differences / bottleneck distance cannot be built is reported as no-failing-input-found (never exit 2)"]
 TRUSTED = ["the compiled driver executable is trusted as compiled by Lean's compiler, not checked by the kernel",
-           "the guarded trace persim.landscapes.exact._VERIF_TRACE is used only to attribute a failing stability case to the known repeated-bar shortcut"]
+           "the guarded trace persim.landscapes.exact._VERIF_TRACE is only counted (for P1 and P2); a failing stability case is attributed to "
+           "the known repeated-bar shortcut by content (harness/props/c03.py oracle + the Lean model of the sweep)"]
 # theorems of Props/C10.lean that carry a clause of the property (closed forms of single branches, helpers, bridges between
 # guards, argument validation and the regression witnesses are excluded)
 CORE_THEOREMS = ["segment_integral", "pnorm_pow_eq_integral", "pnorm_eq_root", "pnorm_pow_nonneg", "sup_eq_max_abs", "supNormExact_eq",
@@ -96,8 +108,9 @@ def cps_any(L):
 
 
 def grid_ok(A):
+    """numeric values; an array with zero rows is allowed (no depth returned: the zero function)"""
     v = A.values
-    return isinstance(v, np.ndarray) and v.dtype.kind == "f" and v.ndim == 2 and v.size > 0
+    return isinstance(v, np.ndarray) and v.dtype.kind == "f" and (v.ndim == 2 or v.size == 0)
 
 
 # ----------------------------------------------------------------------------- generators
@@ -164,13 +177,18 @@ def zero_function_check(A):
 
 
 def gen_family(ctx, k, diag_p=0.0):
-    """k diagrams sharing coordinate mode and scale (so that their landscapes overlap and differences change sign)"""
+    """k diagrams sharing coordinate mode and scale (so that their landscapes overlap and differences change sign); one family
+    in twelve has diagrams of up to 30 bars (thorough: 50)"""
     r = ctx.rng
     mode = r.choice(["lattice", "lattice", "half", "eighth", "dec", "unif"])
     scale = 2.0 ** r.choice([-40, -30, -20, -3, 0, 0, 0, 0, 3, 20, 30])
     ctx.count("mode:" + mode)
     ctx.count("scale:2^%d" % int(math.log2(scale)))
-    return mode, scale, [gen_dgm(ctx, mode, scale, diag_p=diag_p) for _ in range(k)]
+    nmax, nmin = 7, 1
+    if r.random() < 1.0 / 12:
+        nmax, nmin = ctx.n(30, 50), 8
+        ctx.count("family:large(8..%d bars)" % nmax)
+    return mode, scale, [gen_dgm(ctx, mode, scale, nmax=nmax, diag_p=diag_p, nmin=nmin) for _ in range(k)]
 
 
 def combine(ctx, Ls):
@@ -396,6 +414,19 @@ def canon(res):
     return fl(v)
 
 
+def helper_pnorm(ctx, p, cps):
+    """`auxiliary._p_norm(p, cps)` called with the harness's own convention (a private helper).  If that call raises, the
+    property is evaluated through the PUBLIC entry point `PersLandscapeExact(critical_pairs=cps).p_norm(p)` instead: a changed
+    helper signature is not a failing input, a raising public norm is"""
+    ex, _, aux = _mods()
+    res = canon(quiet(call, aux._p_norm, p, cps))
+    if isinstance(res, str):
+        if ctx is not None:
+            ctx.count("private_helper_raised:public_entry_point_used")
+        res = canon(quiet(call, lambda: ex.PersLandscapeExact(critical_pairs=cps, hom_deg=0).p_norm(p)))
+    return res
+
+
 def pre_build(ctx):
     """source translator (DESIGN.md 3.2): regenerate Generated/SrcPNorm.lean from PERSIM_ROOT's source"""
     py2lean.pre_build(ctx, ("pnorm",))
@@ -417,6 +448,15 @@ def run(ctx):
 
     def add_pnorm_jobs(tag, L, cps, i, grid=None):
         """natural p (Rat model, exact power), real p (Float model), sup norm"""
+        n0 = len(jobs)
+        try:
+            _add_pnorm_jobs(tag, L, cps, i, grid)
+        finally:
+            if grid is not None:
+                for j in jobs[n0:]:
+                    j[2]["approx"] = {"start": float(L.start), "stop": float(L.stop), "num_steps": int(L.num_steps), "values": grid[1]}
+
+    def _add_pnorm_jobs(tag, L, cps, i, grid=None):
         for _ in range(2):
             p = gen_p_nat(ctx, i + _ * 7)
             code = canon(call(L.p_norm, p))
@@ -507,6 +547,11 @@ def run(ctx):
             continue
         kind, cs, A = combine(ctx, As)
         ctx.count("grid:" + kind)
+        if np.asarray(A.values).size == 0:
+            # no depth returned (a values array with zero rows): the zero function; its norms were checked above, the model's
+            # grid commands want at least one row
+            ctx.count("grid:zero_rows(not sent to the model)")
+            continue
         grid = np.linspace(A.start, A.stop, A.num_steps).tolist()
         vals = np.asarray(A.values, dtype=float).tolist()
         cps = [[[x, y] for x, y in zip(grid, row)] for row in vals]
@@ -519,10 +564,10 @@ def run(ctx):
         seg_stats(ctx, cps)
         p = gen_p_nat(ctx, i)
         ctx.count("p_nat:%d" % p)
-        code = canon(quiet(call, aux._p_norm, p, cps))
+        code = helper_pnorm(ctx, p, cps)
         jobs.append(("pl.pnorm %d %s" % (p, enc(cps)), "nat", {"src": "synthetic", "p": p, "cps": cps, "code": code}))
         p = gen_p_real(ctx)
-        code = canon(quiet(call, aux._p_norm, p, cps))
+        code = helper_pnorm(ctx, p, cps)
         jobs.append(("pl.pnormf %s %s" % (enc(p), enc(cps)), "real", {"src": "synthetic", "p": p, "cps": cps, "code": code}))
         L = ex.PersLandscapeExact(critical_pairs=cps, hom_deg=0)
         jobs.append(("pl.sup %s" % enc(cps), "sup", {"src": "synthetic", "cps": cps, "code": canon(call(L.sup_norm))}))
@@ -578,19 +623,25 @@ def run(ctx):
         # --- correspondence broke: is the *property* violated on the real code?  ask the quadrature oracle
         checked += 1
         ctx.extra["disagreements_checked"] = checked
-        if kind in ("nat", "real") and not isinstance(code, str) and p >= 1:
+        if kind in ("nat", "real", "sup") and isinstance(code, str) and not isinstance(ans, str) and (p is None or p >= 1):
+            # the landscapes of these streams are valid (finite critical pairs of C09's class) and the model returns a value
+            what = "sup_norm()" if kind == "sup" else "p_norm(%r)" % (p,)
+            ctx.violation("%s raises %s on a valid landscape (%s); the norm is %r" % (what, code, c["src"], _show(ans, p or 1, kind)),
+                          rcase("sup" if kind == "sup" else "pnorm", c), found_input=True,
+                          correspondence=line.split(" ")[0], code=code, model=str(ans))
+        elif kind in ("nat", "real") and not isinstance(code, str) and p >= 1:
             bad, o = oracle_disagrees(code, p, cps)
             what = ("p_norm(p=%r) of the real code = %r, but (sum over depths of the integral of |f|^p)^(1/p) = %r "
                     "(quadrature oracle; model says %r)" % (p, code, None if o is None else o ** (1.0 / p), _show(ans, p, kind)))
             if not bad:
                 what = "p_norm(p=%r): code %r differs from the model %r but agrees with the quadrature oracle" % (p, code, _show(ans, p, kind))
-            ctx.violation(what, {"kind": "pnorm", "p": p, "cps": cps, "src": c["src"]}, found_input=bad,
+            ctx.violation(what, rcase("pnorm", c), found_input=bad,
                           correspondence=line.split(" ")[0], code=code, model=str(ans))
         elif kind == "sup" and not isinstance(code, str):
             o = oracle_sup(cps)
             bad = o != code
             ctx.violation("sup_norm of the real code = %r, largest |value| of the functions = %r (model %r)" % (code, o, float(ans)),
-                          {"kind": "sup", "cps": cps, "src": c["src"]}, found_input=bad, correspondence="pl.sup",
+                          rcase("sup", c), found_input=bad, correspondence="pl.sup",
                           code=code, model=str(ans))
         else:
             ctx.violation("code and model differ on %s: code=%r model=%r" % (line.split(" ")[0], code, ans),
@@ -601,6 +652,28 @@ def run(ctx):
     laws(ctx)
     if not any(f for _, f in ctx.violations):
         lazy_stream(ctx)
+
+
+def rcase(kind, c):
+    """replayable case of a main-stream job: critical pairs (exact class) or grid + values (grid class)"""
+    out = {"kind": kind, "p": c.get("p"), "cps": c["cps"], "src": c["src"]}
+    if "approx" in c:
+        out["approx"] = c["approx"]
+    return out
+
+
+def public_norm(c, which):
+    """the norm of a replayable case through the PUBLIC entry point of its own class -> float | 'err:Kind'"""
+    ex, ap, _ = _mods()
+    if "approx" in c:
+        a = c["approx"]
+        mk = lambda: ap.PersLandscapeApprox(start=a["start"], stop=a["stop"], num_steps=a["num_steps"],
+                                            values=np.array(a["values"], dtype=float), hom_deg=0)
+    else:
+        mk = lambda: ex.PersLandscapeExact(critical_pairs=c["cps"], hom_deg=0)
+    if which == "sup":
+        return canon(quiet(call, lambda: mk().sup_norm()))
+    return canon(quiet(call, lambda: mk().p_norm(c["p"])))
 
 
 def _show(ans, p, kind):
@@ -619,6 +692,15 @@ def law_case(fam, p, c, use_grid, steps, perturb):
     return {"kind": "law", "dgms": fam, "p": p, "c": c, "grid": use_grid, "steps": steps, "perturb": perturb}
 
 
+class OperandsFailed(Exception):
+    """the landscapes / their combinations / the bottleneck distance of a law case could not be built on the real code: the
+    statement of C10 (about the norms of landscapes) cannot be evaluated on this case"""
+
+
+class NormRaised(Exception):
+    """p_norm / sup_norm raised on a valid landscape"""
+
+
 def eval_laws(case, ctx=None):
     """evaluate every law of the statement on the real code for one case; returns {law: ok}"""
     ex, ap, aux = _mods()
@@ -626,29 +708,56 @@ def eval_laws(case, ctx=None):
     dg = case["dgms"]
     p, c = case["p"], case["c"]
     res = {}
-    if case["grid"]:
-        lo = min(b[0] for d in dg for b in d)
-        hi = max(b[1] for d in dg for b in d)
-        Ls = [mk_grid(d, lo, hi, case["steps"]) for d in dg]
-        if not all(grid_ok(A) for A in Ls):
-            # non-numeric values (the former placeholder ['empty']): every law below would raise
-            return {"grid_values_numeric": False, "_why": [zero_function_check(A) for A in Ls if not grid_ok(A)][:1]}
-        res["grid_values_numeric"] = True
-        step = (hi - lo) / (case["steps"] - 1)
-        fired = False
-    else:
-        tr = ex._VERIF_TRACE
-        n0 = len(tr) if tr is not None else 0
-        Ls = [mk_exact(d) for d in dg]
-        fired = tr is not None and len(tr) > n0
-        step = 0.0
-    P1, P2, P3 = Ls
-    A = P1 - P2
-    B = P2 - P3
+    try:
+        if case["grid"]:
+            lo = min(b[0] for d in dg for b in d)
+            hi = max(b[1] for d in dg for b in d)
+            Ls = [mk_grid(d, lo, hi, case["steps"]) for d in dg]
+            if not all(grid_ok(A) for A in Ls):
+                # non-numeric values (the former placeholder ['empty']): every law below would raise
+                return {"grid_values_numeric": False, "_why": [zero_function_check(A) for A in Ls if not grid_ok(A)][:1]}
+            res["grid_values_numeric"] = True
+            step = (hi - lo) / (case["steps"] - 1)
+            fired = False
+        else:
+            # the trace is read for P1 and P2 only: the stability clause is about these two
+            tr = ex._VERIF_TRACE
+            n0 = len(tr) if tr is not None else 0
+            Ls = [mk_exact(d) for d in dg[:2]]
+            fired = tr is not None and len(tr) > n0
+            Ls.append(mk_exact(dg[2]))
+            step = 0.0
+        P1, P2, P3 = Ls
+        with np.errstate(all="ignore"):
+            A = P1 - P2
+            B = P2 - P3
+            AB, cA, z = A + B, c * A, P1 - P1
+            G = 1.5 * P1 + (-2.0) * P2 + 0.5 * P3
+            BA = P2 - P1
+        import warnings
+        with warnings.catch_warnings():
+            warnings.simplefilter("ignore")
+            d12 = float(bn(np.array(dg[0], dtype=float), np.array(dg[1], dtype=float)))
+    except Exception as e:
+        if isinstance(e, common.HarnessError):
+            raise
+        raise OperandsFailed("%s: %s" % (type(e).__name__, str(e)[:300]))
 
-    def nrm(L):
+    def pn(L, what):
+        try:
+            return fl(L.p_norm(p))
+        except Exception as e:
+            raise NormRaised("(%s).p_norm(%r) raised %s: %s" % (what, p, type(e).__name__, str(e)[:200]))
+
+    def sn(L, what):
+        try:
+            return fl(L.sup_norm())
+        except Exception as e:
+            raise NormRaised("(%s).sup_norm() raised %s: %s" % (what, type(e).__name__, str(e)[:200]))
+
+    def nrm(L, what):
         """(norm, absolute rounding allowance of the code's own formula for this landscape)"""
-        v = fl(L.p_norm(p))
+        v = pn(L, what)
         cp = cps_any(L)
         rb = rounding_bound(p, cp)
         if not math.isfinite(v) or v <= 0.0:
@@ -658,17 +767,20 @@ def eval_laws(case, ctx=None):
         except OverflowError:
             return v, v
 
-    with np.errstate(all="ignore"):
-        (nA, eA), (nB, eB), (nAB, eAB) = nrm(A), nrm(B), nrm(A + B)
-        nP, eP = zip(*[nrm(L) for L in Ls])
-        ncA, ecA = nrm(c * A)
-        z = P1 - P1
-        nz, sz = fl(z.p_norm(p)), fl(z.sup_norm())
-        G = 1.5 * P1 + (-2.0) * P2 + 0.5 * P3
-        nG, eG = nrm(G)
-        nBA, eBA = nrm(P2 - P1)
-        sA, scA = fl(A.sup_norm()), fl((c * A).sup_norm())
-        sAB, sB = fl((A + B).sup_norm()), fl(B.sup_norm())
+    try:
+        with np.errstate(all="ignore"):
+            (nA, eA), (nB, eB), (nAB, eAB) = nrm(A, "P1 - P2"), nrm(B, "P2 - P3"), nrm(AB, "(P1 - P2) + (P2 - P3)")
+            nP, eP = zip(*[nrm(L, "P%d" % (i + 1)) for i, L in enumerate(Ls)])
+            ncA, ecA = nrm(cA, "%r * (P1 - P2)" % c)
+            nz, sz = pn(z, "P1 - P1"), sn(z, "P1 - P1")
+            nG, eG = nrm(G, "1.5 P1 - 2 P2 + 0.5 P3")
+            nBA, eBA = nrm(BA, "P2 - P1")
+            sA, scA = sn(A, "P1 - P2"), sn(cA, "%r * (P1 - P2)" % c)
+            sAB, sB = sn(AB, "(P1 - P2) + (P2 - P3)"), sn(B, "P2 - P3")
+    except NormRaised as e:
+        # a norm that raises on a valid landscape with p >= 1 is not equal to the integral it names
+        return {"norm_returns_a_value": False, "_why": str(e), "_fired": bool(fired)}
+    res["norm_returns_a_value"] = True
     res["_ill"] = max(eA / nA if nA > 0 else 0.0, ecA / ncA if ncA > 0 else 0.0, eAB / nAB if nAB > 0 else 0.0,
                       eB / nB if nB > 0 else 0.0, eG / nG if nG > 0 else 0.0) > TOL
     res["finite"] = all(math.isfinite(v) and v >= 0 for v in [nA, nB, nAB, ncA, nz, nG, sA] + list(nP))
@@ -677,19 +789,67 @@ def eval_laws(case, ctx=None):
     res["triangle"] = nAB <= (nA + nB) * (1 + TOL) + eAB + eA + eB and sAB <= (sA + sB) * (1 + TOL) and \
         nG <= (1.5 * nP[0] + 2.0 * nP[1] + 0.5 * nP[2]) * (1 + TOL) + eG + 1.5 * eP[0] + 2.0 * eP[1] + 0.5 * eP[2]
     res["difference_symmetric"] = rel_close(nBA, nA, extra=eA + eBA)
-    # the stability clause is evaluated on every case; where it fails AND the C03 repeated-bar shortcut fired while the
-    # landscapes were built, the caller attributes the failure to the known finding (the landscape itself is then not
-    # the k-th largest tent) instead of reporting it
-    import warnings
-    with warnings.catch_warnings():
-        warnings.simplefilter("ignore")
-        d12 = float(bn(np.array(dg[0], dtype=float), np.array(dg[1], dtype=float)))
+    # the stability clause is evaluated on every case; where it fails the caller decides BY CONTENT (`stability_is_known`)
+    # whether the failure is the known C03 finding seen through C10
     scale = max(abs(x) for d in dg for b in d for x in b) or 1.0
     res["stability"] = sA <= d12 + step * (1 + 1e-9) + 1e-9 * scale
     res["_bn"] = d12
     res["_sup"] = sA
     res["_fired"] = bool(fired)
+    if not res["stability"] and not case["grid"]:
+        res["_cps12"] = [cps_of(P1), cps_of(P2)]
     return res
+
+
+def stability_is_known(case, res):
+    """attribution BY CONTENT of a failing stability case (exact landscapes) to the known C03 repeated-bar shortcut:
+    (a) each of P1, P2 either equals the tent-definition landscape of its diagram or is exactly what the Lean model of the
+        sweep WITH the shortcut returns (model's shortcut fired), and at least one of them is the latter;
+    (b) the code's sup norm of P1 - P2 is the sup of the difference of the functions P1 and P2 themselves represent, so the
+        deviation does not come from `-` or from `sup_norm`;
+    (c) with the tent-definition landscapes the clause holds for the code's bottleneck value, so it does not come from there.
+    Anything else is a different failure of the same clause."""
+    from . import c03
+    if case["grid"] or "_cps12" not in res:
+        return False
+    dg, cps = case["dgms"][:2], res["_cps12"]
+    scale = max(abs(x) for d in dg for b in d for x in b) or 1.0
+    tol = Fraction(1e-9 * scale)
+    models = ask(["pl.exact 0 %s" % enc([d]) for d in dg])
+    any_known = False
+    for d, cp, m in zip(dg, cps, models):
+        wrong = c03.py_check(d, cp, tol) if len(d) <= 10 else c03.np_check(d, cp, float(tol))
+        if wrong is None:
+            continue                                  # this landscape is the definition's
+        if not (isinstance(m, list) and len(m) == 2 and int(m[1]) > 0 and c03.same_cps(c03.normalise(cp, d)[0], m[0], float(tol))):
+            return False                              # wrong, and not in the known way
+        any_known = True
+    if not any_known:
+        return False
+    # (b) sup |f1 - f2| of the represented functions (the difference is piecewise linear with breakpoints in the union)
+    xs = np.unique(np.array([q[0] for cp in cps for depth in cp for q in depth], dtype=float))
+    K = max(len(cps[0]), len(cps[1]))
+
+    def rows(cp):
+        out = np.zeros((K, len(xs)))
+        for k, depth in enumerate(cp):
+            if len(depth) >= 2:
+                out[k] = np.interp(xs, [q[0] for q in depth], [q[1] for q in depth], left=0.0, right=0.0)
+        return out
+    sup12 = float(np.max(np.abs(rows(cps[0]) - rows(cps[1])))) if len(xs) and K else 0.0
+    if abs(sup12 - float(res["_sup"])) > float(tol):
+        return False
+    # (c) the clause for the tent-definition landscapes against the code's bottleneck value
+    Bs = [np.array(d, dtype=float).reshape(-1, 2) for d in dg]
+    ev = np.unique(np.concatenate([np.concatenate([B[:, 0], B[:, 1], ((B[:, 0][:, None] + B[:, 1][None, :]) / 2).ravel()]) for B in Bs]))
+    Kt = max(len(B) for B in Bs)
+
+    def lam_rows(B):
+        T = np.maximum(0.0, np.minimum(ev[None, :] - B[:, 0:1], B[:, 1:2] - ev[None, :]))
+        T = -np.sort(-T, axis=0)
+        return np.vstack([T, np.zeros((Kt - len(T), len(ev)))])
+    true_sup = float(np.max(np.abs(lam_rows(Bs[0]) - lam_rows(Bs[1]))))
+    return true_sup <= float(res["_bn"]) + float(tol)
 
 
 def perturb_dgm(r, d, scale, delta):
@@ -732,9 +892,12 @@ def known_ovf_text(kf):
 
 
 def bigp_eval(case):
-    """p_norm of the exact landscape of one diagram for a large exponent, against the same norm computed on the landscape
-    rescaled to unit height and unit width (homogeneity: ||f|| = M * X**(1/p) * ||f(X .)/M||, the rescaled call is far from
-    over/underflow).  -> dict(ok, value, expected, exponent)"""
+    """p_norm of the exact landscape of one diagram (or of a difference) for a large exponent, against an INDEPENDENT oracle:
+    the landscape's critical pairs are rescaled by powers of two to unit height and unit width (exact: nothing is merged or
+    rounded), the integral of |f|^p of the rescaled function is computed by adaptive quadrature per segment (`oracle_pow`,
+    nowhere near over/underflow at unit scale) and the norm is put together in the log domain:
+    ||f|| = M * X**(1/p) * (integral of |f(X .)/M|^p)**(1/p).  The code's own `_p_norm` on the rescaled function is recorded as
+    well (homogeneity) but decides nothing.  -> dict(ok, value, expected, exponent, raised)"""
     ex, ap, aux = _mods()
     L = mk_exact(case["dgm"]) if "dgm" in case else None
     if "other" in case:
@@ -744,17 +907,53 @@ def bigp_eval(case):
     M = max([abs(q[1]) for l in cps for q in l] + [0.0])
     xs = [q[0] for l in cps for q in l]
     X = (max(xs) - min(xs)) if xs else 0.0
-    v = fl(quiet(L.p_norm, p))
+    st, v, _ = call(lambda: quiet(L.p_norm, p))
+    if st == "err":
+        # a raising norm on a valid landscape with p >= 1: not equal to the integral, and not one of the listed failure modes
+        return {"ok": False, "value": "raised " + v, "expected": None, "exponent": (p * math.log2(M) + math.log2(X)) if M > 0 and X > 0 else 0.0,
+                "raised": True}
+    v = fl(v)
     if M == 0.0 or X == 0.0:
-        return {"ok": v == 0.0, "value": v, "expected": 0.0, "exponent": 0.0}
+        return {"ok": v == 0.0, "value": v, "expected": 0.0, "exponent": 0.0, "raised": False}
     # rescale by powers of two (exact: no abscissae or ordinates are merged or rounded)
     M2, X2 = 2.0 ** round(math.log2(M)), 2.0 ** round(math.log2(X))
     unit = [[[q[0] / X2, q[1] / M2] for q in l] for l in cps]
-    u = fl(quiet(aux._p_norm, p, unit))
-    want = M2 * X2 ** (1.0 / p) * u
+    o = oracle_pow(p, unit)                     # in [~2^-p/2 .. ~2^p/2] * O(1): far inside the double range for p <= 100
+    want = M2 * X2 ** (1.0 / p) * o ** (1.0 / p)
     expo = p * math.log2(M) + math.log2(X)
     ok = math.isfinite(v) and v > 0.0 and math.isfinite(want) and abs(v - want) <= 1e-6 * want
-    return {"ok": ok, "value": v, "expected": want, "exponent": expo}
+    try:
+        u = fl(quiet(aux._p_norm, p, unit))
+        homog = M2 * X2 ** (1.0 / p) * u
+    except Exception:
+        homog = None
+    nseg = sum(max(0, len(l) - 1) for l in cps)
+    log2S = p * (math.log2(M2) + math.log2(X2) / p + math.log2(o) / p) if o > 0 else -math.inf      # log2 of the p-th power of the norm
+    return {"ok": ok, "value": v, "expected": want, "exponent": expo, "raised": False, "rescaled_code": homog, "segments": nseg, "p": p,
+            "log2_pth_power": log2S}
+
+
+def is_listed_overflow(res):
+    """the listed over/underflow finding BY CONTENT.  The p-th power M**p is formed in double precision before the root; the
+    failure modes this produces, and nothing else, are attributed:
+      * overflow:  the value is exactly inf, with p*log2(max|value|)+log2(width) >  BIGP_EXP;
+      * underflow: the value is exactly 0.0, with the same exponent < -BIGP_EXP;
+      * gradual underflow: the p-th power of the norm is a subnormal number (below 2^-1022) and the value deviates from the norm by
+        no more than rounding every segment term to a multiple of 2^-1074 explains
+        (relative error <= (segments + 2) * 2^-1074 / (p-th power) / p) - the quantised form of the 0.0 above;
+    and in each case the norm itself is finite and positive.  NaN, a negative value, a value off by more than that, inf / 0.0 on
+    the wrong side or nearer to 1, and a raise are different failures."""
+    v, want = res["value"], res["expected"]
+    if res.get("raised") or not isinstance(v, float) or want is None or not (math.isfinite(want) and want > 0.0):
+        return False
+    if v == math.inf:
+        return res["exponent"] > BIGP_EXP
+    if v == 0.0:
+        return res["exponent"] < -BIGP_EXP
+    if math.isfinite(v) and v > 0.0 and res.get("log2_pth_power", 0.0) < -1022.0 and res["exponent"] < -BIGP_EXP:
+        bound = (res["segments"] + 2) * 2.0 ** min(60.0, -1074.0 - res["log2_pth_power"]) / res["p"]
+        return abs(v - want) / want <= bound
+    return False
 
 
 def known_replays(ctx):
@@ -763,10 +962,10 @@ def known_replays(ctx):
     still = []
     for c in KNOWN_OVF_CASES:
         res = bigp_eval(c)
-        still.append(not res["ok"])
-        if not res["ok"] and abs(res["exponent"]) <= BIGP_EXP:
-            ctx.violation("p_norm(%r) of %r = %r (expected %r) fails far from the double range" % (c["p"], c["dgm"], res["value"], res["expected"]),
-                          c, found_input=True)
+        still.append(not res["ok"] and is_listed_overflow(res))
+        if not res["ok"] and not is_listed_overflow(res):
+            ctx.violation("p_norm(%r) of %r = %r (the norm is %r) fails in a way that is not the listed over/underflow (inf or 0.0 "
+                          "once M**p leaves the double range)" % (c["p"], c["dgm"], res["value"], res["expected"]), c, found_input=True)
     ctx.extra["known_finding_overflow_still_fails"] = still
     if any(still):
         if kf_ovf:
@@ -777,17 +976,20 @@ def known_replays(ctx):
         print("note: the listed known finding of C10 (_p_norm overflow for large p) no longer reproduces on this tree", flush=True)
     res = eval_laws(KNOWN_STAB_CASE)
     fails = res.get("stability") is False
+    as_listed = fails and stability_is_known(KNOWN_STAB_CASE, res)
     ctx.extra["known_finding_stability_still_fails"] = fails
     ctx.extra["known_finding_stability_shortcut_fired"] = bool(res.get("_fired"))
-    if fails and res.get("_fired"):
+    ctx.extra["known_finding_stability_fails_as_listed"] = bool(as_listed)
+    if as_listed:
         if kf_stab:
             ctx.known(KNOWN_STAB_KEY, known_stab_text(True))
         else:
             ctx.violation("the stability clause fails where the repeated-bar shortcut fires and this is not listed in known_findings.txt",
                           KNOWN_STAB_CASE, law=True, failed=["stability"])
     elif fails:
-        ctx.violation("the listed stability pair fails and the shortcut trace did not fire: sup %r > bottleneck %r"
-                      % (res.get("_sup"), res.get("_bn")), KNOWN_STAB_CASE, law=True, failed=["stability"])
+        ctx.violation("the listed stability pair fails in a way that is not the listed one (a landscape that is neither the "
+                      "definition's nor the shortcut output, or a deviation coming from `-` / sup_norm / bottleneck): sup %r > "
+                      "bottleneck %r" % (res.get("_sup"), res.get("_bn")), KNOWN_STAB_CASE, law=True, failed=["stability"])
     else:
         print("note: the listed known finding of C10 (stability where the C03 shortcut fires) no longer reproduces on this tree", flush=True)
     return kf_ovf, kf_stab
@@ -795,11 +997,12 @@ def known_replays(ctx):
 
 def stream_bigp(ctx, kf_ovf):
     """[T] large exponents (integer and real p up to 100) on landscapes at scales 2^-21 .. 2^21: the norm must be finite,
-    non-zero and equal to the rescaled computation.  Failures with |p*log2(max|value|) + log2(width)| > BIGP_EXP are the known
-    over/underflow finding (counted); failures nearer to 1 are violations."""
+    non-zero and equal to an independent log-domain quadrature at unit scale.  A failure is the known over/underflow finding
+    (counted) only when the value is exactly inf or 0.0 and |p*log2(max|value|) + log2(width)| > BIGP_EXP; every other failure
+    (NaN, negative, off by a factor, a raise, inf/0.0 nearer to 1) is a violation."""
     r = ctx.rng
     attributed = 0
-    for i in range(ctx.n(500, 6000)):
+    for i in range(ctx.n(500, 4000)):
         mode = r.choice(["lattice", "half", "eighth", "dec", "unif"])
         k = r.choice([-21, -20, -12, -8, -3, 0, 0, 0, 3, 8, 12, 20, 21])
         scale = 2.0 ** k
@@ -812,13 +1015,14 @@ def stream_bigp(ctx, kf_ovf):
         ctx.case(c, True, sample_every=97)
         ctx.count("bigp:scale:2^%d" % k)
         ctx.count("bigp:%s" % ("beyond_double_range" if far else "within_double_range"))
-        if not res["ok"] and far and kf_ovf:
+        if not res["ok"] and kf_ovf and is_listed_overflow(res):
             attributed += 1
             ctx.known(KNOWN_OVF_KEY, known_ovf_text(True))
             continue
         ctx.test("large_p_finite_nonzero_accurate", res["ok"])
         if not res["ok"]:
-            ctx.violation("p_norm(p=%r) = %r but the norm is %r (rescaled computation; p*log2(max|value|)+log2(width) = %.0f)"
+            ctx.violation("p_norm(p=%r) = %r but the norm is %r (log-domain quadrature of the landscape rescaled to unit size; "
+                          "p*log2(max|value|)+log2(width) = %.0f; not the listed inf / 0.0 over/underflow)"
                           % (p, res["value"], res["expected"], res["exponent"]), c, found_input=True)
             if len(ctx.violations) > 5:
                 break
@@ -886,7 +1090,17 @@ def laws(ctx):
                 dgms[2] = short_bars(ctx, lo, hi, steps)
                 ctx.count("laws:grid_with_zero_landscape")
         case = law_case(dgms, p, c, use_grid, steps, perturb)
-        res = eval_laws(case)
+        try:
+            res = eval_laws(case)
+        except OperandsFailed as e:
+            # constructor / arithmetic / bottleneck raised: C10's statement cannot be evaluated here (not a failing input of C10)
+            ctx.count("laws:operands_could_not_be_built")
+            if ctx.counters["laws:operands_could_not_be_built"] <= 2:
+                ctx.violation("the landscapes, their combinations or the bottleneck distance of a law case could not be built on the "
+                              "real code (%s); the norm laws were not evaluated on it" % e,
+                              {"correspondence": "laws-operands", "line": repr(case)[:1500], "code": str(e), "model": "operands exist",
+                               "kind": "corr"}, found_input=False)
+            continue
         ctx.count("laws:" + ("grid" if use_grid else "exact"))
         if res.get("_ill"):
             ctx.count("laws:ill_conditioned")
@@ -896,7 +1110,7 @@ def laws(ctx):
         for k, ok in res.items():
             if k.startswith("_"):
                 continue
-            if k == "stability" and not ok and res.get("_fired") and kf_stab:
+            if k == "stability" and not ok and kf_stab and stability_is_known(case, res):
                 # the known finding seen through C10: counted, not reported
                 ctx.count("laws:stability_failures_attributed_to_c03_shortcut")
                 ctx.known(KNOWN_STAB_KEY, known_stab_text(True))
@@ -908,7 +1122,7 @@ def laws(ctx):
             ctx.count("laws:stability_tight_cases")
         if failed:
             ctx.violation("law(s) %s fail on the real code (p=%r, c=%r, %s landscapes): %r"
-                          % (failed, p, c, "grid" if use_grid else "exact", {k: v for k, v in res.items()}),
+                          % (failed, p, c, "grid" if use_grid else "exact", {k: v for k, v in res.items() if k != "_cps12"}),
                           case, law=True, failed=failed)
             if len(ctx.violations) > 5:
                 return
@@ -921,15 +1135,17 @@ def laws(ctx):
             mode, scale, dgms = gen_family(ctx, 2)
             cps = cps_of(mk_exact(dgms[0]) - mk_exact(dgms[1]))
         p = gen_p_real(ctx) if r.random() < 0.5 else r.randint(1, 20)
-        v = fl(quiet(aux._p_norm, p, cps))
-        bad, o = oracle_disagrees(v, p, cps)
+        v = helper_pnorm(ctx, p, cps)
+        if isinstance(v, str):
+            bad, o = True, None
+        else:
+            bad, o = oracle_disagrees(v, p, cps)
         ctx.test("quadrature_oracle", not bad)
         so = oracle_sup(cps)
-        L = ex.PersLandscapeExact(critical_pairs=cps, hom_deg=0)
-        sv = fl(L.sup_norm())
+        sv = canon(call(lambda: ex.PersLandscapeExact(critical_pairs=cps, hom_deg=0).sup_norm()))
         ctx.test("sup_oracle", so == sv)
         if bad:
-            ctx.violation("_p_norm(p=%r) = %r but the integral gives %r (quadrature oracle)"
+            ctx.violation("p_norm(p=%r) = %r but the integral gives %r (quadrature oracle)"
                           % (p, v, None if o is None else o ** (1.0 / p)), {"kind": "pnorm", "p": p, "cps": cps, "src": "oracle"})
         if so != sv:
             ctx.violation("sup_norm = %r but the largest |value| is %r" % (sv, so), {"kind": "sup", "cps": cps, "src": "oracle"})
@@ -948,14 +1164,18 @@ def replay(ctx, rep):
         print("(eager, compute=False):", out)
         return ok
     if kind == "pnorm":
-        v = fl(quiet(aux._p_norm, c["p"], c["cps"]))
+        v = public_norm(c, "p")
+        print("%s.p_norm(%r) = %r   (critical pairs / grid values: %s)" % ("PersLandscapeApprox" if "approx" in c else "PersLandscapeExact",
+                                                                      c["p"], v, repr(c["cps"])[:1500]))
+        if isinstance(v, str):
+            return c["p"] < 1          # a raising norm on a valid landscape with p >= 1 fails the property
+        if c["p"] < 1:
+            return True
         bad, o = oracle_disagrees(v, c["p"], c["cps"])
-        print("persim.landscapes.auxiliary._p_norm(%r, %r) = %r" % (c["p"], c["cps"], v))
         print("integral (quadrature, split at breakpoints and roots): %r" % (None if o is None else o ** (1.0 / c["p"])))
         return not bad
     if kind == "sup":
-        L = ex.PersLandscapeExact(critical_pairs=c["cps"], hom_deg=0)
-        v, o = fl(L.sup_norm()), oracle_sup(c["cps"])
+        v, o = public_norm(c, "sup"), oracle_sup(c["cps"])
         print("sup_norm = %r, largest |value| = %r" % (v, o))
         return v == o
     if kind == "zero_grid":
@@ -965,10 +1185,15 @@ def replay(ctx, rep):
         return z is None
     if kind == "bigp":
         res = bigp_eval(c)
-        print("p_norm(%r) = %r, rescaled computation %r, p*log2(max|value|)+log2(width) = %.0f" % (c["p"], res["value"], res["expected"], res["exponent"]))
+        print("p_norm(%r) = %r, the norm (log-domain quadrature at unit scale) %r, p*log2(max|value|)+log2(width) = %.0f; the listed "
+              "over/underflow mode: %s" % (c["p"], res["value"], res["expected"], res["exponent"], is_listed_overflow(res)))
         return res["ok"]
     if kind == "law":
-        res = eval_laws(c)
+        try:
+            res = eval_laws(c)
+        except OperandsFailed as e:
+            print("the operands of this law case cannot be built on this tree (%s): the norm laws are not evaluated" % e)
+            return True
         print("laws:", res)
         return res is not None and all(v for k, v in res.items() if not k.startswith("_") and v is not None)
     print("correspondence-only replay (no failing input was found): %s" % {k: c.get(k) for k in ("correspondence", "code", "model")})
@@ -1004,17 +1229,21 @@ MANIFEST = {
             "one zero row, all norms 0), their differences and linear combinations and on synthetic functions with forced zeros, "
             "equal and nearly equal neighbours, repeated points and single-point depths. Tested exponent range: the correspondence "
             "uses p <= 20; a separate [T] stream uses integer and real p up to 100 at scales 2^-21..2^21 and requires a finite, "
-            "non-zero value equal to the rescaled computation. Two known findings are replayed on every run (KNOWN-FINDING lines "
-            "while they fail): (a) M**p is formed in double precision before the root, so p_norm is inf / 0.0 once "
-            "|p*log2(max|value|) + log2(width)| exceeds about 1000 (failures beyond 900 are attributed to it, nearer ones are "
-            "VIOLATIONs); (b) the stability clause fails where the C03 repeated-bar shortcut fires (every stability case is "
-            "evaluated; a failure is attributed only when the guarded trace says the shortcut fired while the landscapes were built).",
+            "non-zero value equal (1e-6) to an independent oracle: adaptive quadrature of the landscape rescaled to unit size, "
+            "assembled in the log domain. Two known findings are replayed on every run (KNOWN-FINDING lines "
+            "while they fail) and recognised by content: (a) M**p is formed in double precision before the root, so p_norm is inf / "
+            "0.0 once |p*log2(max|value|) + log2(width)| exceeds about 1000 - attributed only when the value is exactly inf (exponent "
+            "> 900), exactly 0.0 (< -900) or, in the gradual-underflow window, off by no more than the 2^-1074 quantisation of the "
+            "p-th power explains; NaN, negative, off-by-a-factor values and raises are VIOLATIONs; (b) the stability clause fails "
+            "where the C03 repeated-bar shortcut fires - attributed only when P1 and P2 are each the definition's landscape or exactly "
+            "the model's shortcut output, `-` and sup_norm are faithful on them and the definition's landscapes satisfy the clause. "
+            "A norm that raises on a valid landscape (p >= 1) is a failing input.",
     "note": "Theorems are exact-arithmetic (reals). [T] only: behaviour under float rounding — finiteness, accuracy and the laws "
             "on the real code (law stream + quadrature oracle; this is what exposed the near-flat cancellation repaired by "
             "b342827); the Float model's expm1 is Kahan's exp/log formula (core Lean has no expm1), np.expm1/np.log/C pow are "
             "trusted to agree with it to 1e-9. The stability theorem is about PL.landscape; its transfer to the models of the code's sweep, arithmetic, "
             "sup norm and bottleneck routine is the theorem model_sup_norm_sub_le_model_bottleneck (hypothesis: shortcut not fired) and it is additionally tested against persim.bottleneck on every case (failures where the C03 repeated-bar "
-            "shortcut fired are the known finding: counted and reported as KNOWN-FINDING, not skipped). Grid landscapes: np.linspace is passed to the model as data (strictly increasing "
+            "shortcut produced the landscape's wrong critical pairs - recognised by content - are the known finding: counted and reported as KNOWN-FINDING, not skipped). Grid landscapes: np.linspace is passed to the model as data (strictly increasing "
             "grid is C08's contract). Trusted: Lean kernel + Mathlib, axioms propext/Classical.choice/Quot.sound; the "
             "correspondence harness and the compiled driver executable (compiled by Lean's compiler, not checked by the kernel). Observation outside the property (p >= 1): p_norm(-1) returns NaN instead of the sup norm, "
             "because both subclasses discard the value of super().p_norm — modelled as is (pNormMethod).",
